@@ -111,6 +111,9 @@ class SimFS:
         elif self.stored_encoding:
             # the bytes on "disk" are `stored_encoding`; the reader gets them through the encoding it asked for
             data = data.encode(self.stored_encoding).decode(kwargs.get("encoding") or "utf-8")
+        if kwargs.get("newline", None) is None and "\r" in data:
+            # text mode with universal newlines (the default of open()): "\r\n" and "\r" arrive as "\n"
+            data = data.replace("\r\n", "\n").replace("\r", "\n")
         f = io.StringIO(data)
         f.name = p
         return f
